@@ -70,6 +70,11 @@ func (k rkey) key() string { return fmt.Sprintf("sh.helm.release.v1.%s.v%d", k.N
 
 var keys = []rkey{{"a", 1}, {"a", 2}, {"b", 1}}
 
+// keySets: the explorations run once per key set. The second one crosses the
+// one-digit/two-digit revision boundary (record keys "…v9" < "…v10" numerically
+// but not as strings).
+var keySets = [][]rkey{{{"a", 1}, {"a", 2}, {"b", 1}}, {{"a", 9}, {"a", 10}, {"b", 1}}}
+
 type payload struct {
 	Status string
 	Label  bool
@@ -398,6 +403,7 @@ type replayData struct {
 	Backend string  `json:"backend"`
 	Path    []Op    `json:"path,omitempty"`
 	RT      *rtCase `json:"rt,omitempty"`
+	KeySet  int     `json:"key_set,omitempty"`
 }
 
 // runSeq executes path on a fresh backend in lock-step with the reference and
@@ -442,10 +448,20 @@ func replay(c *core.Ctx, data json.RawMessage) []core.Violation {
 		}
 		return nil
 	}
+	if rd.KeySet > 0 && rd.KeySet < len(keySets) {
+		keys = keySets[rd.KeySet]
+	}
 	if what, key, ok := runSeq(rd.Backend, rd.Path); !ok {
-		return []core.Violation{{Property: prop, Key: "seq/" + rd.Backend + "/" + key, What: what, Replay: data}}
+		return []core.Violation{{Property: prop, Key: "seq/" + rd.Backend + ksTag(rd.KeySet) + "/" + key, What: what, Replay: data}}
 	}
 	return nil
+}
+
+func ksTag(ks int) string {
+	if ks == 0 {
+		return ""
+	}
+	return "/revs=9,10"
 }
 
 // ---------- exploration ----------
@@ -453,6 +469,18 @@ func replay(c *core.Ctx, data json.RawMessage) []core.Violation {
 func run(c *core.Ctx) {
 	t0 := time.Now()
 	defer func() { c.Count("phase_ms_total", time.Since(t0).Milliseconds()) }()
+	for ks := range keySets {
+		keys = keySets[ks]
+		runSeqPhases(c, ks)
+	}
+	keys = keySets[0]
+	t2 := time.Now()
+	runRoundTrips(c)
+	c.Count("phase_ms_rt", time.Since(t2).Milliseconds())
+}
+
+func runSeqPhases(c *core.Ctx, ks int) {
+	t0 := time.Now()
 	full := alphabet(false)
 	// BFS over reference states, remembering up to three real paths per state.
 	type node struct {
@@ -518,16 +546,16 @@ func run(c *core.Ctx) {
 					}
 					c.Transition(1)
 					c.Eval(1)
-					c.State(be + "|" + cn)
+					c.State(be + ksTag(ks) + "|" + cn)
 					if pi == 0 {
-						c.Distinct(be + "|" + cn + "|" + op.String())
+						c.Distinct(be + ksTag(ks) + "|" + cn + "|" + op.String())
 					}
 					what, key, ok := runSeqFrom(be, seq, len(seq)-1)
 					_, want := n.st.apply(op)
 					noteFloors(c, op, want)
 					c.Outcome(op.Kind + ":" + want.Err)
 					if !ok {
-						c.Violate(prop, "seq/"+be+"/"+key, what, replayData{Mode: "seq", Backend: be, Path: seq})
+						c.Violate(prop, "seq/"+be+ksTag(ks)+"/"+key, what, replayData{Mode: "seq", Backend: be, Path: seq, KeySet: ks})
 					} else if len(seq) == 4 {
 						c.Sample(map[string]any{"backend": be, "calls": opStrings(seq), "agrees_with_reference_map": true})
 					}
@@ -539,6 +567,9 @@ func run(c *core.Ctx) {
 	c.Count("phase_ms_bfs", time.Since(t0).Milliseconds())
 	t1 := time.Now()
 
+	if ks > 0 && !c.Thorough() {
+		return // quick: the second key set runs the state-graph phase only
+	}
 	// plain sequence enumeration over the reduced alphabet (hidden-state guard)
 	red := alphabet(true)
 	depth := 3
@@ -559,7 +590,7 @@ func run(c *core.Ctx) {
 				c.Transition(int64(depth))
 				what, key, ok := runSeq(be, seq)
 				if !ok {
-					c.Violate(prop, "seq/"+be+"/"+key, what, replayData{Mode: "seq", Backend: be, Path: seq})
+					c.Violate(prop, "seq/"+be+ksTag(ks)+"/"+key, what, replayData{Mode: "seq", Backend: be, Path: seq, KeySet: ks})
 				}
 			}
 			i := depth - 1
@@ -578,9 +609,6 @@ func run(c *core.Ctx) {
 	}
 	c.Depth(depth)
 	c.Count("phase_ms_seq", time.Since(t1).Milliseconds())
-	t2 := time.Now()
-	runRoundTrips(c)
-	c.Count("phase_ms_rt", time.Since(t2).Milliseconds())
 }
 
 func opStrings(ops []Op) []string {
